@@ -862,8 +862,15 @@ class Check(PropertyCheck):
         "C08_client_SigCovers", "C08_client_SigCoversValid", "C08_client_SelfStable", "C08_outputs_clean_gen", "C08_outputs_eval_gen",
         "C08_inputs_current_gen", "C08_command_sig_tracks_definition", "C08_changed_definition_reruns_gen",
         "C08_value_records_outputs",
-        "NeedProducerStable.C08_gen_needs_ProducerStable", "C08_SigCovers_needs_TargetsStable")]
-    extractors = ["x_bsrules"]
+        "NeedProducerStable.C08_gen_needs_ProducerStable", "C08_SigCovers_needs_TargetsStable",
+        # Props/C08X.lean: the EXTENDED client (Model/BuildSystemClientX.lean): shell commands with discovered dependencies (deps files)
+        # and with a failure of their own (non-zero exit status)
+        "C08X_client_WF", "C08X_client_Det", "C08X_clean_is_eval", "C08X_incremental_equals_clean", "C08X_inputs_current",
+        "C08X_extends_client", "C08X_deps_attribute_in_signature", "C08X_client_SigCoversValid", "C08X_client_SelfStable",
+        "C08X_outputs_clean_gen", "NeedDiscsAreSources.C08X_needs_DiscsAreSources")]
+    # x_failtables / x_enginefp / x_depsparsers: Props/C08X.lean imports the failure tables (C10), the engine fingerprint (C01) and the
+    # dependency-file parser tables (C11) its statements are instances of
+    extractors = ["x_bsrules", "x_failtables", "x_enginefp", "x_depsparsers"]
     harnesses = []
     assumptions = [
         "commands are deterministic functions of the contents of their declared inputs (real /bin/sh, cat, touch behave)",
@@ -871,7 +878,15 @@ class Check(PropertyCheck):
         "the effects of commands on the file system during a build are abstracted as values: a node's value stands for its content; "
         "the frame argument (a produced path is written by one command and read only by tasks that requested its node) is the decidable "
         "well-formedness predicate `Desc.wf`, not a theorem about the file system",
-        "discovered dependencies (deps files) are not part of this model (C11); directory-tree nodes are C12",
+        "discovered dependencies (deps files) and commands that fail by themselves are not in the BASE model (Model/BuildSystemClient.lean); "
+        "they are in its extension Model/BuildSystemClientX.lean (Props/C08X.lean: C08X_client_WF, C08X_incremental_equals_clean, C08X_outputs_clean_gen), "
+        "under the decidable hypothesis DiscsAreSources (every path a command can report as discovered is a source file of the description: "
+        "no producer, not virtual; without it the statement fails, C08X_needs_DiscsAreSources, and the real tool shows it on a generated "
+        "header - probe of ./check C11), with the discovered list a function of the contents of the DECLARED inputs (Engine.Program.disc "
+        "does not see the external state: a header that includes another header is modelled by the full list), and with the F22 ghost flag "
+        "of C01 (pendingDropped = false: no failed build ended while discovered dependencies were still pending) as a hypothesis that can no "
+        "longer be discharged; the extension is tied to the real tool by the `clientx` streams of ./check C10 and ./check C11; "
+        "directory-tree nodes are C12",
         "description edits ARE proved (Props/C08Gen.lean: C08_outputs_clean_gen / C08_inputs_current_gen = C01_value_gen / C01_inputs_gen at "
         "`fun g => client H (ds g)`; a description edit = the tool started again on the same database with another description; the client "
         "obligations C08_client_SigCoversValid and C08_client_SelfStable are theorems), under two explicit hypotheses: (1) the signature hash "
